@@ -283,23 +283,33 @@ def finish(H, hname, tier, seed, configs, results, t0, extra_cov=None, extra_ass
     nviol = 0
     engine_problem = False
     replays = 0
-    os.makedirs(os.path.join(ROOT, "replays", prop), exist_ok=True)
+    rdir = os.path.join(ROOT, "replays", prop)
+    import shutil
+    shutil.rmtree(rdir, ignore_errors=True)
+    os.makedirs(rdir, exist_ok=True)
     reported = []
-    for key, cases in sorted(viol.items()):
-        case = cases[0]
+
+    def do_replay(item):
+        key, cases = item
         slug = hashlib.sha1(key.encode()).hexdigest()[:10]
-        path = os.path.join(ROOT, "replays", prop, f"{slug}.json")
-        json.dump({"property": prop, "harness": hname, **case}, open(path, "w"), indent=1)
-        reproduced, detail = False, ""
+        path = os.path.join(rdir, f"{slug}.json")
+        detail, n = "", 0
         for cand in cases[:3]:
             json.dump({"property": prop, "harness": hname, **cand}, open(path, "w"), indent=1)
             pr = subprocess.run([sys.executable, "-m", "symx.run", hname, "--replay", path],
-                                cwd=ROOT, capture_output=True, text=True, timeout=600)
-            replays += 1
+                                cwd=ROOT, capture_output=True, text=True, timeout=900)
+            n += 1
             detail = (pr.stdout.strip().splitlines() or [pr.stderr.strip()[-300:]])[-1]
             if pr.returncode == 1 and "REPRODUCED" in pr.stdout and "NOT-REPRODUCED" not in pr.stdout:
-                reproduced = True
-                break
+                return key, cand, path, True, detail, n
+        return key, cases[0], path, False, detail, n
+
+    from concurrent.futures import ThreadPoolExecutor
+    with ThreadPoolExecutor(max_workers=12) as ex:
+        replayed = list(ex.map(do_replay, sorted(viol.items())))
+    for key, case, path, reproduced, detail, n in replayed:
+        cases = viol[key]
+        replays += n
         kf = next((k for k in known if fnmatch.fnmatchcase(key, k["key"])), None)
         if not reproduced:
             engine_problem = True
